@@ -6,6 +6,7 @@ package c18
 // no panic, every mutex a handler can take is free, returned within the hang bound, allocation bounded.
 
 import (
+	"bytes"
 	"encoding/binary"
 	"encoding/hex"
 	"encoding/json"
@@ -18,6 +19,7 @@ import (
 	"sync/atomic"
 	"testing"
 	"time"
+	"verif/ref/wire"
 
 	"github.com/piotrnar/gocoin/client/common"
 	"github.com/piotrnar/gocoin/client/network"
@@ -36,14 +38,18 @@ const hangBound = 20 * time.Second
 const bystanderNonce = uint64(0xb15a4de2b15a4de2)
 
 type seqCase struct {
-	Incoming   bool   `json:"incoming"`
-	Syncing    bool   `json:"syncing"`              // node still in initial block download
-	Handshake  bool   `json:"handshake"`            // a well-formed version message is delivered first
-	Special    bool   `json:"special,omitempty"`    // connection marked "special" (friend / manual)
-	Authorized bool   `json:"authorized,omitempty"` // deliver a valid xauth right after the handshake
-	Peers      string `json:"peers,omitempty"`      // peers database at the start: "" empty | full | below | above (see resetWith)
-	Bystander  bool   `json:"bystander,omitempty"`  // another peer is connected and has completed its handshake (nonce bystanderNonce)
-	Msgs       []msg  `json:"msgs"`
+	Incoming   bool     `json:"incoming"`
+	Syncing    bool     `json:"syncing"`              // node still in initial block download
+	Handshake  bool     `json:"handshake"`            // a well-formed version message is delivered first
+	Special    bool     `json:"special,omitempty"`    // connection marked "special" (friend / manual)
+	Authorized bool     `json:"authorized,omitempty"` // deliver a valid xauth right after the handshake
+	Peers      string   `json:"peers,omitempty"`      // peers database at the start: "" empty | full | below | above (see resetWith)
+	Bystander  bool     `json:"bystander,omitempty"`  // another peer is connected and has completed its handshake (nonce bystanderNonce)
+	Queues     string   `json:"queues,omitempty"`     // an outgoing queue at its capacity (see queues_test.go)
+	SendOff    int      `json:"send_off,omitempty"`   // sendbuf_* variants: ring offset and distance to the threshold
+	SendSlack  int      `json:"send_slack,omitempty"`
+	Tags       []string `json:"tags,omitempty"` // generator shapes used (histogram only)
+	Msgs       []msg    `json:"msgs"`
 }
 
 // --- the mirror of Run()'s loop body ----------------------------------------------------------------
@@ -478,7 +484,11 @@ var _ = big.NewInt
 
 type stepStats struct {
 	msgs, reached, nontrivial int
-	fullBlockRequested        bool   // a getdata for a full block went to this peer (in-progress entry without collector)
+	fullBlockRequested        bool // a getdata for a full block went to this peer (in-progress entry without collector)
+	inProgressMax             int
+	genuineAccepted           int    // genuine copies of a wanted block taken after another peer's corrupt copy
+	txChanFull, sendOverflow  uint64 // gocoin's counters TxChannelFULL, PeerSendOverflow
+	getdataPaused, blkQueued  uint64 // GetDataPaused(+Ext), NetBlock-Queued
 	addrNewNO, addrNewYES     uint64 // gocoin's counters: new addresses refused because the DB is full / taken
 	sameNonce                 int    // version messages carrying the nonce of the established bystander connection
 	namedInProgress           int    // blocktxn / block / cmpctblock messages naming a block that is in progress on this connection
@@ -491,6 +501,8 @@ func runSeq(cs seqCase, st *stepStats) (err error) {
 	}
 	e := getEnv()
 	e.resetWith(cs.Syncing, cs.Peers)
+	stopQueues := applyQueues(cs.Queues)
+	defer stopQueues()
 	serial := 0
 	var by *network.OneConnection
 	if cs.Bystander {
@@ -543,6 +555,7 @@ func runSeq(cs seqCase, st *stepStats) (err error) {
 			}
 			if st != nil && c.Mutex.TryLock() {
 				st.fullBlockRequested = st.fullBlockRequested || len(c.GetBlockInProgress) > 0
+				st.inProgressMax = max(st.inProgressMax, len(c.GetBlockInProgress))
 				c.Mutex.Unlock()
 			}
 			return locksFree(c)
@@ -591,12 +604,14 @@ func runSeq(cs seqCase, st *stepStats) (err error) {
 		if err := unexportedLocksFree(); err != nil {
 			return fmt.Errorf("after the handler of %q returned, %v", m.Cmd, err)
 		}
-		// the writer thread's job: whatever was queued for the peer goes out
-		c.Mutex.Lock()
-		c.SendBufCons = c.SendBufProd
-		c.Mutex.Unlock()
+		// the writer thread's job: whatever was queued for the peer goes out (unless the peer does not read)
+		if peerReads(cs.Queues) || !c.X.VersionReceived {
+			c.Mutex.Lock()
+			c.SendBufCons = c.SendBufProd
+			c.Mutex.Unlock()
+		}
 		// the main thread's job: queued transactions go to the mempool, queued blocks are taken off
-		for len(network.NetTxs) > 0 {
+		for cs.Queues != "nettxs_full" && len(network.NetTxs) > 0 {
 			ntx := <-network.NetTxs
 			if err := guarded("txpool.HandleNetTx for a transaction queued by the tx handler", func() { txpool.HandleNetTx(ntx) }); err != nil {
 				return err
@@ -605,8 +620,17 @@ func runSeq(cs seqCase, st *stepStats) (err error) {
 				return fmt.Errorf("after txpool.HandleNetTx returned, %v", err)
 			}
 		}
-		for len(network.NetBlocks) > 0 {
-			<-network.NetBlocks
+		var queued []*network.BlockRcvd
+		for cs.Queues != "netblocks_full" && len(network.NetBlocks) > 0 {
+			queued = append(queued, <-network.NetBlocks)
+		}
+		if m.Expect == "block_accepted" {
+			if err := checkAcceptedBlock(c, pl, queued); err != nil {
+				return err
+			}
+			if st != nil {
+				st.genuineAccepted++
+			}
 		}
 		if leave || c.IsBroken() {
 			// Run() leaves its loop; a later message of the case arrives on a new connection
@@ -637,6 +661,7 @@ func runSeq(cs seqCase, st *stepStats) (err error) {
 				}
 			}
 		}
+		setSendLevel(c, cs.Queues, cs.SendOff, cs.SendSlack) // from here on the peer may have stopped reading
 		return nil
 	}
 	if err := hello(); err != nil && err != errReconnect {
@@ -661,6 +686,9 @@ func runSeq(cs seqCase, st *stepStats) (err error) {
 	}
 	if st != nil {
 		st.addrNewNO, st.addrNewYES = common.CounterGet("AddrNewNO"), common.CounterGet("AddrNewYES")
+		st.txChanFull, st.sendOverflow = common.CounterGet("TxChannelFULL"), common.CounterGet("PeerSendOverflow")
+		st.getdataPaused = common.CounterGet("GetDataPaused") + common.CounterGet("GetDataPauseExt")
+		st.blkQueued = common.CounterGet("NetBlock-Queued")
 	}
 	harvestCounters()
 	runtime.ReadMemStats(&ms)
@@ -678,7 +706,7 @@ var errReconnect = fmt.Errorf("reconnect")
 var depthCounters = []string{"HeaderNew", "HeaderFresh", "HeaderOld", "NetBlock-Queued", "NetBlock-CachedA", "UnxpectedBlockNEW", "TxAccepted",
 	"Tx Procesed", "TxInputInMemory", "PreCheckBlockFail", "GetHeadersBadBlock", "GetHeadersOrphBlk", "GetblksMissed", "GetdataBlockSw",
 	"GetdataTxSw", "GetdataCmpctBlk", "AddrNewYES", "AddrNewNO", "AddrUpdated", "PongOK", "InvBlockNew", "InvBlockFresh", "BlkTxnIncomplete",
-	"ShortIDUnknown", "BanVerSameNonce", "UnxpBlockTxnA", "UnxpBlockTxnB", "BlkTxnSameRcvd", "TrustedMsg-Tx", "TrustedMsg-Block", "BanMisbehave", "PeersBanned", "EmptyHeadersRcvd", "CmpctBlockMaxInProg"}
+	"ShortIDUnknown", "BanVerSameNonce", "TxChannelFULL", "PeerSendOverflow", "GetDataPaused", "GetDataPauseExt", "GetDataRestored", "BanGetDataTooBigA", "UnxpBlockTxnA", "UnxpBlockTxnB", "BlkTxnSameRcvd", "TrustedMsg-Tx", "TrustedMsg-Block", "BanMisbehave", "PeersBanned", "EmptyHeadersRcvd", "CmpctBlockMaxInProg"}
 
 func harvestCounters() {
 	common.CounterMutex.Lock()
@@ -698,6 +726,45 @@ func harvestCounters() {
 	}
 }
 
+// checkAcceptedBlock is an extra oracle on behalf of property C09 ("a block's transaction list, ids and
+// weight are those of the bytes given"), for the one decoder caller the C09 check cannot drive:
+// netBlockReceived re-using the record of a wanted block after another peer's corrupt copy.  raw is the
+// genuine block a (new) peer has just delivered: it must have been queued for the chain thread, its
+// sender must not be banned, and what was decoded must be what the reference decoder reads from raw.
+func checkAcceptedBlock(c *network.OneConnection, raw []byte, queued []*network.BlockRcvd) error {
+	const tag = "[serves C09: a block's transaction list, ids and weight are those of the bytes given] "
+	ref, used, err := wire.DecodeBlock(raw)
+	if err != nil || used != len(raw) {
+		return fmt.Errorf("harness: the genuine block does not decode with the reference: %v", err)
+	}
+	if banned, why := c.VerifBanned(); banned || c.IsBroken() {
+		return fmt.Errorf(tag+"the peer that delivered the genuine copy of a wanted block was banned / dropped (%s) after another peer had delivered a corrupt copy", why)
+	}
+	want := ref.Header.Hash()
+	var got *network.BlockRcvd
+	for _, q := range queued {
+		if q.BlockTreeNode != nil && q.BlockTreeNode.BlockHash.Hash == want {
+			got = q
+		}
+	}
+	if got == nil || got.Block == nil {
+		return fmt.Errorf(tag + "the genuine copy of a wanted block was not handed to the chain thread")
+	}
+	b := got.Block
+	if !bytes.Equal(b.Raw, raw) || b.TxCount != len(ref.Txs) || len(b.Txs) != len(ref.Txs) {
+		return fmt.Errorf(tag+"queued block: %d transactions decoded (TxCount %d) from bytes that hold %d", len(b.Txs), b.TxCount, len(ref.Txs))
+	}
+	for i, t := range ref.Txs {
+		if b.Txs[i] == nil || b.Txs[i].Hash.Hash != t.TxID() || !bytes.Equal(b.Txs[i].Raw, t.Serialize(true)) {
+			return fmt.Errorf(tag+"queued block: transaction %d is not the one in the bytes", i)
+		}
+	}
+	if int(b.BlockWeight) != ref.Weight() {
+		return fmt.Errorf(tag+"queued block: weight %d, the bytes weigh %d", b.BlockWeight, ref.Weight())
+	}
+	return nil
+}
+
 // --- the property -----------------------------------------------------------------------------------
 
 func genSeqCase(t *rapid.T) seqCase {
@@ -714,7 +781,59 @@ func genSeqCase(t *rapid.T) seqCase {
 		cs.Peers = pick(g, []string{"full", "full", "below", "above"})
 		cs.Handshake = cs.Handshake || g.chance(70)
 	}
+	if cs.Peers == "" && g.chance(14) {
+		cs.Queues = pick(g, queueVariants)
+		cs.SendOff = g.k(network.SendBufSize)
+		cs.SendSlack = pick(g, []int{0, 1, 23, 24, 25, 32, 60, 100, 300, 1000, 5000, 100000})
+		cs.Handshake = cs.Handshake || g.chance(80)
+		if cs.Queues == "nettxs_full" {
+			cs.Syncing = false // transactions are only taken when the chain is synchronised
+		}
+	}
+	if cs.Peers == "" && cs.Queues == "" && g.chance(4) {
+		// a self-contained scenario: nothing else in the case can deliver or discard the block first
+		cs.Handshake, cs.Syncing = true, g.chance(20)
+		cs.Msgs = g.corruptCopyScenario()
+		cs.Tags = g.tags
+		return cs
+	}
 	cs.Msgs = g.sequence(30)
+	switch cs.Queues {
+	case "nettxs_full": // distinct, new, well-formed transactions the pool wants
+		for i, n := 0, g.n(1, 3, "ntxmsg"); i < n; i++ {
+			j := g.n(0, len(cs.Msgs), "txpos")
+			t := g.tx()
+			g.txs = append(g.txs, t)
+			cs.Msgs = append(cs.Msgs[:j], append([]msg{{Cmd: "tx", Pl: hex.EncodeToString(t.Serialize(true)), Kind: "wf"}}, cs.Msgs[j:]...)...)
+		}
+	case "netblocks_full": // blocks that pass the checks and get queued: the full block, or a complete compact block
+		for i, n := 0, g.n(1, 2, "nblkmsg"); i < n; i++ {
+			j := g.n(0, len(cs.Msgs), "blkpos")
+			bl := buildBlock(g.e.hashes[baseBlocks], baseBlocks+1, genesisTime+600*(baseBlocks+1), []byte{0xb7, byte(g.k(256))}, nil)
+			m := msg{Cmd: "block", Pl: hex.EncodeToString(bl.Serialize(true)), Kind: "wf"}
+			if g.chance(50) {
+				var p built
+				p.w(bl.Header.Serialize(), g.bytesN(8, 8))
+				p.cs(0)
+				p.cs(1)
+				p.cs(0)
+				p.w(bl.Txs[0].Serialize(true))
+				m = msg{Cmd: "cmpctblock", Pl: hex.EncodeToString(p.b.Bytes()), Kind: "wf"}
+			}
+			cs.Msgs = append(cs.Msgs[:j], append([]msg{m}, cs.Msgs[j:]...)...)
+		}
+	case "sendbuf_half", "sendbuf_quarter", "sendbuf_full": // requests with long answers
+		for i, n := 0, g.n(1, 3, "nreq"); i < n; i++ {
+			j := g.n(0, len(cs.Msgs), "reqpos")
+			var p built
+			k := pick(g, []int{1, 2, 5, 40})
+			p.cs(uint64(k))
+			for x := 0; x < k; x++ {
+				p.w(le32(pick(g, []uint32{0x40000002, 0x40000002, 4, 0x40000001})), g.e.hashes[g.n(1, baseBlocks, "reqh")][:])
+			}
+			cs.Msgs = append(cs.Msgs[:j], append([]msg{{Cmd: "getdata", Pl: hex.EncodeToString(p.b.Bytes()), Kind: "wf"}}, cs.Msgs[j:]...)...)
+		}
+	}
 	if cs.Peers != "" {
 		// addr messages with fresh, routable, segwit-flagged addresses the database does not know yet
 		// (1, 2, a few, many per message; optionally mixed with known ones)
@@ -742,6 +861,7 @@ func genSeqCase(t *rapid.T) seqCase {
 			}
 		}
 	}
+	cs.Tags = g.tags
 	return cs
 }
 
@@ -762,6 +882,20 @@ func classify(r *pbt.Run, cs seqCase) {
 	}
 	if cs.Peers != "" {
 		r.Class("peers_db/" + cs.Peers)
+	}
+	if cs.Queues != "" {
+		r.Class("queues/" + cs.Queues)
+	}
+	seenTag, breaks := map[string]bool{}, false
+	for _, tg := range cs.Tags {
+		if !seenTag[tg] {
+			seenTag[tg] = true
+			r.Class("blockbody/" + tg)
+		}
+		breaks = breaks || strings.HasPrefix(tg, "wc/") && wcBreaksRule(tg[3:])
+	}
+	if breaks {
+		r.Class("blockbody/breaks_witness_commitment_rule")
 	}
 	seenCmd := map[string]bool{}
 	seenKind := map[string]bool{}
@@ -817,6 +951,16 @@ func TestHandlerSequences(t *testing.T) {
 		if st.sameNonce > 0 {
 			r.Class("version/same_nonce_as_bystander")
 		}
+		switch {
+		case cs.Queues == "nettxs_full" && st.txChanFull > 0:
+			r.Class("queue/tx_offered_while_nettxs_full")
+		case cs.Queues == "netblocks_full" && st.blkQueued > 0:
+			r.Class("queue/block_queued_while_netblocks_full")
+		case cs.Queues == "sendbuf_full" && st.sendOverflow > 0:
+			r.Class("queue/send_buffer_overflow")
+		case cs.Queues == "sendbuf_half" && st.getdataPaused > 0:
+			r.Class("queue/getdata_paused")
+		}
 		if cs.Peers != "" && st.addrNewNO > 0 {
 			r.Class("addr/new_record_while_db_full")
 			if st.addrNewYES > 0 {
@@ -825,6 +969,12 @@ func TestHandlerSequences(t *testing.T) {
 		}
 		if cs.Peers != "" && st.addrNewYES > 0 {
 			r.Class("addr/new_record_taken_near_the_limit")
+		}
+		if st.genuineAccepted > 0 {
+			r.Class("c09/genuine_block_accepted_after_corrupt_copy")
+		}
+		if st.inProgressMax >= 500 {
+			r.Class("queue/blocks_in_progress_at_per_peer_limit")
 		}
 		if st.fullBlockRequested {
 			r.Class("state/full_block_requested_from_peer")
